@@ -84,7 +84,7 @@ struct Sim {
   int speed = 1; // 0 starved child, 1 normal, 2 eager child
   uint32_t eintr_den = 0, eagain_den = 0, clamp_den = 0, stall_den = 0;
   size_t pipe_capacity = 0;
-  bool close_fd0 = false; // the calling process has no descriptor 0 (daemon): pipe() hands out 0
+  unsigned close_fd0 = 0; // bit mask: the calling process has no descriptor 0 and/or 1 (daemon): pipe() hands those out
   uint64_t step_budget = 40000;
   uint64_t call_budget = 150000;
   int kills_sent = 0;
@@ -392,7 +392,10 @@ int __wrap_poll(struct pollfd* pfds, nfds_t n, int timeout_ms) {
   for (;;) {
     int r = __real_poll(pfds, n, 0);
     if (r != 0 || timeout_ms == 0) {
-      ev("poll.ret", (uint64_t)(int64_t)r);
+      uint64_t summary = 0; // (pipe index, revents) of every ready descriptor, for the trace
+      for (nfds_t i = 0; i < n; i++)
+        if (pfds[i].revents) summary = summary * 1000 + fd_index(pfds[i].fd) * 100 + (pfds[i].revents & 0x3F);
+      ev("poll.ret", (uint64_t)(int64_t)r, summary);
       return r;
     }
     if (n == 0 && !has_deadline) {
@@ -818,25 +821,33 @@ void draw_environment() {
     g.stall_den = (uint32_t)pick({0, 64, 8}, "f.stall");
   }
   g.pipe_capacity = pick({0, 4096, 8192, 1 << 20}, "pipe.capacity");
-  g.close_fd0 = choose(8, "parent.fd0_closed") == 7;
+  // descriptor 0 OR descriptor 1 missing, never both: with both gone pipe() returns (0,1) for the stdin pipe
+  // and the child branch of the Subprocess constructor closes its own freshly installed stdout
+  // (close(stdin_write_fd) with stdin_write_fd == 1). That is an observation about callers without any
+  // standard descriptors, which C15 does not quantify over (DESIGN.md 10), so it is not generated.
+  g.close_fd0 = choose(8, "parent.fd0_closed") == 7 ? 1 + choose(2, "parent.fd_mask") : 0;
 }
 
 // Runs the armed section with the process's descriptor 0 closed (and puts it back afterwards), so that
 // the first pipe() of the code under test is handed descriptor 0.
 struct Fd0Closer {
-  int saved = -1;
-  explicit Fd0Closer(bool enable) {
-    if (!enable) return;
-    saved = fcntl(0, F_DUPFD_CLOEXEC, 300);
-    if (saved >= 0) {
-      __real_close(0);
-      VS_PROBE("caller_without_descriptor_0");
+  int saved[2] = {-1, -1};
+  // mask bit 0: descriptor 0 is closed; bit 1: descriptor 1 is closed (2 stays: sanitizer reports go there)
+  explicit Fd0Closer(unsigned mask) {
+    for (int fd = 0; fd < 2; fd++) {
+      if (!(mask & (1u << fd))) continue;
+      saved[fd] = fcntl(fd, F_DUPFD_CLOEXEC, 300);
+      if (saved[fd] >= 0) __real_close(fd);
     }
+    if (saved[0] >= 0) VS_PROBE("caller_without_descriptor_0");
+    if (saved[1] >= 0) VS_PROBE("caller_without_descriptor_1");
   }
   ~Fd0Closer() {
-    if (saved >= 0) {
-      dup2(saved, 0);
-      __real_close(saved);
+    for (int fd = 0; fd < 2; fd++) {
+      if (saved[fd] >= 0) {
+        dup2(saved[fd], fd);
+        __real_close(saved[fd]);
+      }
     }
   }
 };
@@ -1244,7 +1255,7 @@ int main(int argc, char** argv) {
       {"child program", "stub: vsim/child.c, a scripted peer that makes one non-blocking step per simulator command"},
       {"scheduling between parent and child, clock, poll timeouts, EINTR/EAGAIN/short transfers", "simulator (link-time wrappers in engines/sim_proc.cc)"}};
   e.expected_probes = {"payload_larger_than_pipe", "output_larger_than_pipe", "clock_jumped_over_child_sleep", "poll_timed_out", "blocking_waitpid", "timeout_killed_child", "check_threw_on_nonzero_status",
-      "child_died_by_own_signal", "child_exited_with_unread_output_in_pipe", "communicate_with_deadline_returned", "communicate_without_deadline_returned", "communicate_deadline_passed", "parent_busy_wait_skipped", "lifecycle_waited", "destructor_killed_running_child", "destructor_found_child_exited", "run_process_called_repeatedly", "grandchild_kept_pipes_open", "sigkill_after_ignored_sigterm", "destructor_ended_running_child", "caller_without_descriptor_0"};
+      "child_died_by_own_signal", "child_exited_with_unread_output_in_pipe", "communicate_with_deadline_returned", "communicate_without_deadline_returned", "communicate_deadline_passed", "parent_busy_wait_skipped", "lifecycle_waited", "destructor_killed_running_child", "destructor_found_child_exited", "run_process_called_repeatedly", "grandchild_kept_pipes_open", "sigkill_after_ignored_sigterm", "destructor_ended_running_child", "caller_without_descriptor_0", "caller_without_descriptor_1"};
   e.expected_faults = {"EINTR@poll", "EINTR@waitpid", "spurious_EAGAIN@read", "spurious_EAGAIN@write", "short_read", "short_write", "parent_stall"};
   return driver_main(argc, argv, e);
 }
